@@ -7,10 +7,9 @@
 // stub: after set_shift(r, 0) it returns Re / Im of v / (lambda_true - r) for the two probe solves (exactly what a correct
 // shift-solve wrapper returns for an exact eigenvector).  Obligations: the value handed back is lambda_true (never the mirror root
 // sigma_r + sigma_i^2 / (lambda_true - sigma_r)), a complex value is followed by its exact conjugate, a real one has imaginary part
-// exactly 0, the operator's shift is restored to sigma afterwards, and the probe solve is DEFINED: the probe shift must not be an
-// eigenvalue.  The only genericity assumption is the one the library itself makes - its fixed pseudo-random probe
-// r0 = rng(0).random() * sigma_r + rng(0).random() is not an eigenvalue; a probe at any other shift (e.g. at Re sigma, which the
-// property allows to be an eigenvalue) is reported.
+// exactly 0, the operator's shift is restored to sigma afterwards, and the probe is not made at Re sigma or Re sigma +- Im sigma - real
+// numbers the property explicitly allows to be eigenvalues of A while sigma is admissible (a probe there divides by a singular matrix).
+// For every other probe value the definedness of the probe solve is the genericity assumption the library itself makes.
 #include "symx_eigen.h"
 #include <complex>
 
@@ -48,14 +47,14 @@ complex<Real> sqrt<Real>(const complex<Real>& z)
 #include <Spectra/Util/SimpleRandom.h>
 namespace Spectra {
 // environment stub (as in c07_krylov.cpp): the generator's state transition is the real code, a draw is mapped to a small dyadic
-// rational in [-0.5, 0.5] (C19 decides that every real draw lies in that interval); keeps the probe shift a small rational
+// rational in (-0.5, 0.5) (C19 decides that every real draw lies in that interval); keeps the probe shift a small rational
 template <>
 struct RandomScalar<Real>
 {
     static Real run(long& seed)
     {
         seed = next_long_rand(seed);
-        return sym::rational((seed % 9) - 4, 8);
+        return sym::rational(2 * (seed % 8) + 1 - 8, 16);  // odd/16 in (-0.5, 0.5): never exactly 0 (a draw of exactly 0 has probability ~2^-31 in the real generator)
     }
 };
 }  // namespace Spectra
@@ -72,6 +71,7 @@ struct ProbeOp
     mutable int applied = 0;
     CReal lambda_true;
     Real other_eig;               // an arbitrary further real eigenvalue of A
+    Real sigr_, sigi_;            // the shift of the problem
     std::vector<CReal> v;         // the eigenvector the probes are applied to
     Eigen::Index rows() const { return n; }
     Eigen::Index cols() const { return n; }
@@ -86,9 +86,15 @@ struct ProbeOp
         // only meaningful at a real shift (the probe): y = (A - r I)^{-1} x for x = Re v (even calls) / Im v (odd calls)
         sym::expect("probe solves are made at a real shift", !si.is_sym() && si.value() == 0.0, "imaginary part of the probe shift is not 0");
         sym::Scope sc("probe solve (A - r I)^{-1}");
-        sym::DefScope ds(sym::Def::Check);  // the one division whose definedness is an obligation: the probe shift must not be an eigenvalue
-        // (A - r I) must be nonsingular: r differs from EVERY eigenvalue of A, not only from the probed one
-        sym::check("probe shift is not an eigenvalue of A (the probe solve is defined)", sym::ne(sr, other_eig));
+        sym::DefScope ds(sym::Def::Assume);  // lambda_true != r: part of the same genericity assumption
+        // (A - r I) must be nonsingular: r differs from EVERY eigenvalue of A, not only from the probed one.  That no fixed probe can
+        // guarantee; what the property does say is which real numbers MAY be eigenvalues although sigma is admissible: Re sigma and
+        // Re sigma +- Im sigma (its quantifier names them).  A probe at one of those is a violation; for any other probe value the
+        // definedness of the probe solve is the (listed) genericity assumption - so a different seed or another generic formula for
+        // the probe raises no alarm.
+        sym::check("probe shift is none of Re sigma, Re sigma +- Im sigma (values the property allows as eigenvalues of A)",
+                   sym::ne(sr, sigr_) && sym::ne(sr, sigr_ + sigi_) && sym::ne(sr, sigr_ - sigi_));
+        sym::assume(sym::ne(sr, other_eig), "the probe shift actually used is not an eigenvalue of A");
         CReal d = lambda_true - CReal(sr, Real(0));
         Real den = d.real() * d.real() + d.imag() * d.imag();
         for (int k = 0; k < n; k++)
@@ -114,18 +120,9 @@ static void cshift_case(double sigr, double sigi, bool real_lambda)
     op.lambda_true = lam;
     op.v = {CReal(Real(1), Real(0)), CReal(Real(0), Real(1)), CReal(Real(0), Real(0))};
     // the library's own probe shift (fixed seed): the one genericity assumption
-    // r0 = rng.random() * sigma_r + rng.random(): the order in which the two draws are made is unspecified in C++ (operands of +),
-    // so both candidates are assumed not to be eigenvalues
-    SimpleRandom<Real> rng0(0);
-    Real c1 = rng0.random(), c2 = rng0.random();
-    Real r0a = c1 * sym::exact(sigr) + c2, r0b = c2 * sym::exact(sigr) + c1;
+    op.sigr_ = sigmar;
+    op.sigi_ = sigmai;
     op.other_eig = sym::fresh("other_eigenvalue");
-    for (const Real& r0 : {r0a, r0b})
-    {
-        CReal d0 = lam - CReal(r0, Real(0));
-        sym::assume(sym::ne(d0.real() * d0.real() + d0.imag() * d0.imag(), Real(0)), "the library's pseudo-random probe shift is not an eigenvalue");
-        sym::assume(sym::ne(op.other_eig, r0), "the library's pseudo-random probe shift is not an eigenvalue");
-    }
     // sigma itself is not an eigenvalue (documented precondition); automatically true for sigma_i != 0
     // nu = (mu / (mu^2 + sigma_i^2)), mu = lambda - sigma_r
     CReal mu = lam - CReal(sigmar, Real(0));
